@@ -46,7 +46,7 @@ TABLE_OBLIGATIONS = [
 RULE = (
     "A case is a URL string with the suffix_aware modes to run it in (both, for the corpus and the grammar). The stream is: the regression corpus (IPv6 with port, "
     "password without user, ':' and '@' in the path, multi-label suffixes, '|' URLs ...), then all 480 bracketed literals of the family "
-    "{zone id, IPvFuture text} ending with a public suffix x port x userinfo x tail (the class of the fix FX-C12-BRACKETSUFFIX), then the quantifier's grammar (quick: a seeded sample of 12,000 URLs; thorough: "
+    "{zone id, IPvFuture text} ending with a public suffix x port x userinfo x tail (the class of the fix FX-C12-df640b6), then the quantifier's grammar (quick: a seeded sample of 12,000 URLs; thorough: "
     "all of it) 6 scheme forms x 8 userinfo shapes x 14 host shapes "
     "(names, upper case, multi-label public suffixes, wildcard/exception suffix families, IPv4, "
     "localhost, bracketed IPv6 incl. hex groups, embedded IPv4 and zone id, punycode, non-ASCII, "
@@ -133,7 +133,7 @@ CORPUS = [
     # D34 (fixed by 915ddc4): bracketed IPv6 hosts
     "http://[2001:db8::1]:8080/x", "http://[::1]/", "http://u:p@[::1]:80/", "http://[2001:db8::1]/x",
     "http://[::ffff:1.2.3.4]:8/a", "http://[fe80::1%25eth0]:22/", "http://[FE80::A]/", "http://[::1]:/",
-    # FX-C12-BRACKETSUFFIX (formerly KF-C12-1): bracketed literal whose zone id / IPvFuture text ends with a public
+    # FX-C12-df640b6 (formerly KF-C12-1): bracketed literal whose zone id / IPvFuture text ends with a public
     # suffix (suffix-aware mode used to split it into domain labels); and the same shapes without a suffix
     "http://[::1%a.co.uk]/x", "http://[v1.a.com]/", "http://[FE80::1%Eth0.com]:80/", "http://[fe80::1%eth0]/",
     "http://[v1.x]/p", "http://u:p@[fe80::1%25eth0]:22/a?b#c", "http://[v1.fe80::a+en1]/",
@@ -205,7 +205,7 @@ def rand_stem(rng):
     return tag + ":" + val
 
 
-# FX-C12-BRACKETSUFFIX: bracketed literals (zone id, IPvFuture) whose text ends with a public suffix — enumerated
+# FX-C12-df640b6: bracketed literals (zone id, IPvFuture) whose text ends with a public suffix — enumerated
 BRACKET_LITERALS = ["[::1%%%s]", "[FE80::A%%eth0.%s]", "[v1.%s]", "[vF.x.%s]"]
 BRACKET_SUFFIXES = ["com", "co.uk", "a.co.uk", "CoM", "www.ck", "x.www.ck", "city.kawasaki.jp", "b.kawasaki.jp", "github.io", "fr."]
 BRACKET_FAMILY = [
@@ -829,7 +829,7 @@ def classify(case):
         if h != h.lower():
             labs.append("host-upper")
         if h.startswith("[") and split is not None and True in case["sa"]:
-            # the class the fix FX-C12-BRACKETSUFFIX is about: split_suffix finds a suffix in the literal's text
+            # the class the fix FX-C12-df640b6 is about: split_suffix finds a suffix in the literal's text
             labs.append("bracketed-literal-with-public-suffix-text")
     if True in case["sa"]:
         labs.append("split=" + ("none" if split is None else "suffix-only" if split[0] == "" else "%d-label-suffix" % (split[1].count(".") + 1)))
